@@ -248,10 +248,57 @@ let c18 (payload : string) : string =
       | Dialed true -> "dial-ok" | Dialed false -> "dial-fail" | DialSkipped -> "skip") outs)
   | _ -> "bad"
 
+(* ---------------- C03 / C05 / C06: client state machine ---------------- *)
+let res_name (r : result) : string = match r with
+  | ROk p -> "ok:" ^ string_of_int (int_of_nat p)
+  | RSvcErr t -> "svc:" ^ string_of_int (int_of_nat t)
+  | RDecodeErr -> "decode" | RCodecErr -> "codec" | RCtx -> "ctx" | RConnErr -> "conn"
+  | RShutdown -> "shutdown" | RWriteErr -> "write" | REncErr -> "enc" | ROneway -> "ok:0"
+
+let csm (payload : string) : string =
+  match String.split_on_char ';' payload with
+  | [cspec; evs] ->
+    let b s = (s = "1") in
+    let calls = List.map (fun t -> match String.split_on_char ':' t with
+      | [k; o; rs] -> new_call (match k with "G" -> KGo | "C" -> KCall | _ -> KRaw) (b o) (n_of_dec rs)
+      | _ -> failwith "call") (split_on ' ' (String.trim cspec)) in
+    let ev t = match String.split_on_char ':' t with
+      | ["reg"; c] -> EReg (nat_of_int (int_of_string c))
+      | ["rawreg"; c] -> ERawReg (nat_of_int (int_of_string c))
+      | ["encfail"; c] -> EEncFail (nat_of_int (int_of_string c))
+      | ["wok"; c] -> EWriteOk (nat_of_int (int_of_string c))
+      | ["wfail"; c] -> EWriteFail (nat_of_int (int_of_string c))
+      | ["ow"; c] -> EOneway (nat_of_int (int_of_string c))
+      | ["ctx"; c] -> ECtx (nat_of_int (int_of_string c))
+      | ["take"; c] -> ETake (nat_of_int (int_of_string c))
+      | ["rderr"; e] -> EReadErr (b e)
+      | ["close"] -> EClose
+      | ["recv"; id; seq; push; err; meta; text; pl; dec; codec] ->
+        ERecv { f_id = nat_of_int (int_of_string id); f_seq = n_of_dec seq; f_servermsg = b push; f_error = b err;
+                f_hasmeta = b meta; f_text = nat_of_int (int_of_string text); f_payload = nat_of_int (int_of_string pl);
+                f_decodable = b dec; f_codec_ok = b codec }
+      | _ -> failwith ("event " ^ t) in
+    let sched = List.map ev (split_on ' ' (String.trim evs)) in
+    let st = run (init calls true) sched in
+    let show_call (x : call) =
+      match x.c_kind with
+      | KGo ->
+        let n = List.length x.c_signals in
+        let last = (match List.rev x.c_signals with (_, r) :: _ -> res_name r | [] -> "-") in
+        Printf.sprintf "G:%d:%s" n last
+      | KCall -> "C:ret=" ^ (match x.c_ret with Some r -> res_name r | None -> "-")
+      | KRaw -> "R:ret=" ^ (match x.c_ret with Some r -> res_name r | None -> "-") in
+    Printf.sprintf "%s | pushes=%s pending=%d shutdown=%s closing=%s"
+      (String.concat " " (List.map show_call st.calls))
+      (String.concat "," (List.map (fun i -> string_of_int (int_of_nat i)) st.pushes))
+      (List.length st.pending) (if st.shutdown then "1" else "0") (if st.closing then "1" else "0")
+  | _ -> "bad"
+
 let () =
   let prop = Sys.argv.(1) in
   let f = match prop with
     | "C12" -> c12
+    | "C03" | "C05" | "C06" -> csm
     | "C18" -> c18
     | "C11" -> c11
     | "C13" -> c13
